@@ -2,54 +2,56 @@
   C15 — the torrent created from a path depends on the content tree and the settings only.
   Property theorems only (helper lemmas live in Torf.Lemmas.Create / Torf.Lemmas.Sort).
 
-  * `C15_created_partial` … the refinement `pathSetter = Spec.created` under `Spec.hypB`;
-  * `C15_no_empty_file(_addressed)` … empty files are never stored: every spelling, every cwd,
-    every pattern set (the repair of D15a, /repo d89a92e, at full strength);
-  * `C15_created_full`, `C15_independent_full` … the unrestricted statements, each refuted by
-    concrete witnesses (recorded defects D15b–D15d; D15a's witnesses are regression examples).
+  * `C15_created` … wherever the tree is, whatever the working directory is and however the path
+    is spelled, `Torrent.path = spelling` computes `Spec.created tree settings` (which mentions no
+    environment) and raises nothing; `C15_independent` … so two ways of addressing the same tree
+    give the same torrent.  Proved for the code as of /repo 1742c6d (before the repairs d89a92e,
+    42ec9ba, 1742c6d these were the defs `C15_created_full` / `C15_independent_full`, refuted by
+    the witnesses of D15a–D15d, which are now positive regression `example`s below).
+  * `C15_created_env` … the same refinement over abstract environments under `Spec.hypB`.
+  * `C15_no_empty_file(_addressed)` … empty files are never stored.
 -/
 import Torf.Lemmas.Create
 namespace Torf.C15
 open Torf Torf.Paths Torf.Create
 
-/-- Under `hypB` (well-formed tree, covered spelling, the path leads to the tree, what the walk
-    listed exists, `commonpath` of the non-empty files is the tree's top or harmless)
-    `Torrent.path = spelling` computes exactly the specified torrent — and raises nothing.
-    Nothing in `hypB` restricts the working directory or the rest of the file system any more
-    (before /repo d89a92e: `probeOK`, i.e. cwd = the tree's parent or no empty file, and no
-    same-named empty file below the cwd). -/
-theorem C15_created_partial (o : Oracles) (st : Settings) (env : Env) (t : Tree)
-    (h : Spec.hypB st env t = true) :
+/-- Under `hypB` — nothing but well-formedness of (environment, tree): real names, the spelled path
+    leads to something called like the tree, what the walk listed exists, the walk listed the tree
+    — `Torrent.path = spelling` computes exactly the specified torrent and raises nothing.
+    No conjunct restricts the working directory, the spelling (`..`, `sub/..`, `../..` included),
+    the shape of the tree or the patterns. -/
+theorem C15_created_env (o : Oracles) (st : Settings) (env : Env) (t : Tree)
+    (h : Spec.hypB env t = true) :
     pathSetter o st env = .ok (Spec.created o st t) :=
   pathSetter_eq_created o st env t h
 
 /-- … hence working directory, spelling, walk order and the rest of the file system do not
-    matter (within `hypB`). -/
-theorem C15_independent_partial (o : Oracles) (st : Settings) (t : Tree) (env₁ env₂ : Env)
-    (h₁ : Spec.hypB st env₁ t = true) (h₂ : Spec.hypB st env₂ t = true) :
+    matter. -/
+theorem C15_independent_env (o : Oracles) (st : Settings) (t : Tree) (env₁ env₂ : Env)
+    (h₁ : Spec.hypB env₁ t = true) (h₂ : Spec.hypB env₂ t = true) :
     pathSetter o st env₁ = pathSetter o st env₂ := by
-  rw [C15_created_partial o st env₁ t h₁, C15_created_partial o st env₂ t h₂]
+  rw [C15_created_env o st env₁ t h₁, C15_created_env o st env₂ t h₂]
 
 theorem C15_no_internal_error (o : Oracles) (st : Settings) (env : Env) (t : Tree)
-    (h : Spec.hypB st env t = true) : ∃ c, pathSetter o st env = .ok c :=
-  ⟨_, C15_created_partial o st env t h⟩
+    (h : Spec.hypB env t = true) : ∃ c, pathSetter o st env = .ok c :=
+  ⟨_, C15_created_env o st env t h⟩
 
 /-- Which files are stored: exactly the non-hidden, non-empty ones that are not (excluded and not
     included), patterns being matched against `name/rel/path`. -/
 theorem C15_filter_spec (o : Oracles) (st : Settings) (env : Env) (t : Tree)
-    (h : Spec.hypB st env t = true) (f : FileEnt) (hf : f ∈ t.files) :
+    (h : Spec.hypB env t = true) (f : FileEnt) (hf : f ∈ t.files) :
     (f.rel, f.size) ∈ filesOf (pathSetter o st env) ↔
       (isHidden f.rel = false ∧ f.size ≠ 0 ∧
         ¬ (Spec.excluded o st (Spec.patPath t.name f) = true ∧
            Spec.included o st (Spec.patPath t.name f) = false)) := by
-  rw [C15_created_partial o st env t h, mem_filesOf_created, mem_kept, keep_iff]
+  rw [C15_created_env o st env t h, mem_filesOf_created, mem_kept, keep_iff]
   exact ⟨fun h => h.2, fun h => ⟨hf, h⟩⟩
 
 /-- … and they are stored in the order of their component lists, whatever the walk order. -/
 theorem C15_stored_order (o : Oracles) (st : Settings) (env : Env) (t : Tree)
-    (h : Spec.hypB st env t = true) :
+    (h : Spec.hypB env t = true) :
     filesOf (pathSetter o st env) = (Spec.kept o st t).map fun f => (f.rel, f.size) := by
-  rw [C15_created_partial o st env t h, filesOf_created]
+  rw [C15_created_env o st env t h, filesOf_created]
 
 /-- Glob patterns and the path are only seen case-folded. -/
 theorem C15_glob_case (o : Oracles) (st st' : Settings) (p p' : String)
@@ -91,165 +93,41 @@ example :
     isExcluded o ⟨[], ["T/b.txt"], [], []⟩ "T/b.txt" = true ∧
     isExcluded o ⟨["T/b.txt"], [], [], []⟩ "T/B.txt" = true := by decide
 
-/-! ### the unrestricted statements and their counterexamples (recorded defects D15a–D15d) -/
+/-! ### the statement over concrete file systems: every location, cwd and spelling -/
 
 /-- the environment in which file system `fs` is seen from `cwd` -/
 def envOf (fs : FS) (cwd : Comps) (sp : PPath) (order : List FileEnt) : Env :=
   ⟨cwd, sp, order, fsExists fs cwd⟩
 
 /-- the spelling `sp`, read in `cwd`, leads to a place of file system `fs` that holds exactly
-    tree `t` -/
+    tree `t`; a tree that is a single file is spelled with its name last (no file system resolves
+    `f.bin/x/..`; on component lists it would lead to the file) -/
 def Addresses (fs : FS) (cwd : Comps) (sp : PPath) (t : Tree) : Bool :=
   let loc := normpath true (if sp.abs then sp.comps else cwd ++ sp.comps)
   loc.getLast? == some t.name &&
   t.files.all (fun f => fs.contains (loc ++ f.rel, some f.size)) &&
   fs.all (fun e => !(loc.isPrefixOf e.1) || e.2.isNone ||
-    t.files.any (fun f => e == (loc ++ f.rel, some f.size)))
+    t.files.any (fun f => e == (loc ++ f.rel, some f.size))) &&
+  (!t.files.any (·.rel.isEmpty) || isClean (name (pathlibNorm sp).comps))
 
-/-- C15 as documented: wherever the tree is and however it is spelled, the result is the
-    specified one.  FALSE for the code as modelled (counterexamples below). -/
-def C15_created_full : Prop :=
-  ∀ (o : Oracles) (st : Settings) (t : Tree) (fs : FS) (cwd : Comps) (sp : PPath)
-    (ord : List FileEnt),
-    Spec.cleanTree t = true → Addresses fs cwd sp t = true → ord.Perm t.files →
-    pathSetter o st (envOf fs cwd sp ord) = .ok (Spec.created o st t)
-
-/-- … in particular two ways of addressing the same tree give the same torrent.  FALSE. -/
-def C15_independent_full : Prop :=
-  ∀ (o : Oracles) (st : Settings) (t : Tree) (fs₁ fs₂ : FS) (cwd₁ cwd₂ : Comps)
-    (sp₁ sp₂ : PPath) (ord₁ ord₂ : List FileEnt),
-    Spec.cleanTree t = true → Addresses fs₁ cwd₁ sp₁ t = true → Addresses fs₂ cwd₂ sp₂ t = true →
-    ord₁.Perm t.files → ord₂.Perm t.files →
-    pathSetter o st (envOf fs₁ cwd₁ sp₁ ord₁) = pathSetter o st (envOf fs₂ cwd₂ sp₂ ord₂)
-
-/-- witness oracles: no case folding, glob and regex are literal equality -/
-def witO : Oracles := ⟨fun s => s, fun text pat => text == pat, fun pat text => pat == text⟩
-def witNoPat : Settings := ⟨[], [], [], []⟩
-def witExA : Settings := ⟨["T/a.txt"], [], [], []⟩
-
-def witTa : Tree := ⟨"T", [⟨["a"], 3⟩, ⟨["e"], 0⟩]⟩
-def witFSa : FS := [(["r", "P", "T", "a"], some 3), (["r", "P", "T", "e"], some 0)]
-
-/-! D15a (repaired by /repo d89a92e): the empty-file test used to probe `name/rel` relative to the
-    cwd.  Its witnesses are now positive regression examples: from inside the tree, from an
-    unrelated cwd by absolute path, and with an unrelated empty `T/a` below the cwd the model gives
-    the specified torrent `[T/a]`. -/
-
-/-- an unrelated cwd `/r/U` that holds a same-named *empty* `T/a` and a non-empty `T/e` -/
-def witFSa' : FS := witFSa ++ [(["r", "U", "T", "a"], some 0), (["r", "U", "T", "e"], some 5)]
-
-/-- formerly `C15_created_counterexample_D15a` / `C15_independent_counterexample` -/
-example :
-    Spec.created witO witNoPat witTa = .multi "T" [(["a"], 3)] ∧
-    -- `cd T; path = "."` (was: `[a, e(0)]`)
-    pathSetter witO witNoPat (envOf witFSa ["r", "P", "T"] ⟨false, ["."]⟩ witTa.files)
-      = .ok (Spec.created witO witNoPat witTa) ∧
-    -- `cd P; path = "T"`
-    pathSetter witO witNoPat (envOf witFSa ["r", "P"] ⟨false, ["T"]⟩ witTa.files)
-      = .ok (Spec.created witO witNoPat witTa) ∧
-    -- `cd /r/U; path = "/r/P/T"` with the decoys `U/T/a` (empty) and `U/T/e` (not empty) below the
-    -- cwd (was: `a` dropped because `U/T/a` is empty → no file at all)
-    pathSetter witO witNoPat (envOf witFSa' ["r", "U"] ⟨true, ["r", "P", "T"]⟩ witTa.files)
-      = .ok (Spec.created witO witNoPat witTa) ∧
-    pathSetter witO witNoPat (envOf witFSa' ["r", "U"] ⟨false, ["..", "P", "T"]⟩ witTa.files.reverse)
-      = .ok (Spec.created witO witNoPat witTa) := by decide
-
-example : Spec.hypB witNoPat (envOf witFSa ["r", "P", "T"] ⟨false, ["."]⟩ witTa.files) witTa = true ∧
-    Spec.hypB witNoPat (envOf witFSa' ["r", "U"] ⟨true, ["r", "P", "T"]⟩ witTa.files) witTa = true ∧
-    Spec.hypB witNoPat (envOf witFSa' ["r", "U"] ⟨false, ["..", "P", "T"]⟩ witTa.files.reverse) witTa
-      = true := by decide
-
-def witTb : Tree := ⟨"T", [⟨["a.txt"], 3⟩, ⟨["sub", "b.txt"], 1⟩]⟩
-def witFSb : FS := [(["r", "P", "T", "a.txt"], some 3), (["r", "P", "T", "sub", "b.txt"], some 1)]
-
-/-- D15b: `cd T/sub; path = ".."` — the exclude pattern `T/a.txt` is matched against
-    `../a.txt`, so `a.txt` stays. -/
-theorem C15_created_counterexample_D15b : ¬ C15_created_full := by
-  intro h
-  exact absurd (h witO witExA witTb witFSb ["r", "P", "T", "sub"] ⟨false, [".."]⟩ witTb.files
-    (by decide) (by decide) (List.Perm.refl _)) (by decide)
-
-/-- D15b: `cd T/sub; path = ".."` and `cd P; path = "T"` give different torrents. -/
-theorem C15_independent_counterexample : ¬ C15_independent_full := by
-  intro h
-  exact absurd (h witO witExA witTb witFSb witFSb ["r", "P", "T", "sub"] ["r", "P"]
-    ⟨false, [".."]⟩ ⟨false, ["T"]⟩ witTb.files witTb.files
-    (by decide) (by decide) (by decide) (List.Perm.refl _) (List.Perm.refl _)) (by decide)
-
-def witTc : Tree := ⟨"T", [⟨["a.txt"], 3⟩]⟩
-def witFSc : FS := [(["r", "P", "T", "a.txt"], some 3)]
-
-/-- D15c: a directory with one file — `commonpath` is the file itself, the pattern `T/a.txt` is
-    matched against `T/T/a.txt`, and the file that should be excluded is kept. -/
-theorem C15_created_counterexample_D15c : ¬ C15_created_full := by
-  intro h
-  exact absurd (h witO witExA witTc witFSc ["r", "P"] ⟨false, ["T"]⟩ witTc.files
-    (by decide) (by decide) (List.Perm.refl _)) (by decide)
-
-def witTc' : Tree := ⟨"T", [⟨[".hid", "a"], 3⟩, ⟨[".hid", "b"], 1⟩]⟩
-def witFSc' : FS := [(["r", "P", "T", ".hid", "a"], some 3), (["r", "P", "T", ".hid", "b"], some 1)]
-
-/-- D15c, hidden rule: all files share the hidden directory `.hid`, the hidden test starts below
-    it, and both files are kept (specification: no file, `.empty`). -/
-theorem C15_created_counterexample_D15c_hidden : ¬ C15_created_full := by
-  intro h
-  exact absurd (h witO witNoPat witTc' witFSc' ["r", "P"] ⟨false, ["T"]⟩ witTc'.files
-    (by decide) (by decide) (List.Perm.refl _)) (by decide)
-
-def witTcE : Tree := ⟨"T", [⟨["a.txt"], 3⟩, ⟨["e"], 0⟩]⟩
-def witFScE : FS := [(["r", "P", "T", "a.txt"], some 3), (["r", "P", "T", "e"], some 0)]
-
-/-- D15c as it reaches since d89a92e: the empty files are dropped *before* `filter_files` takes
-    the `commonpath`, so one non-empty file beside an empty one is enough — `commonpath` is
-    `T/a.txt`, the pattern is matched against `T/T/a.txt`, the file is kept. -/
-theorem C15_created_counterexample_D15c_beside_empty : ¬ C15_created_full := by
-  intro h
-  exact absurd (h witO witExA witTcE witFScE ["r", "P"] ⟨false, ["T"]⟩ witTcE.files
-    (by decide) (by decide) (List.Perm.refl _)) (by decide)
-
-def witTd : Tree := ⟨"T", [⟨["a"], 3⟩, ⟨["sub", "b"], 1⟩]⟩
-def witFSd : FS := [(["r", "P", "T", "a"], some 3), (["r", "P", "T", "sub", "b"], some 1)]
-
-/-- D15d: `cd T; path = "sub/.."` — the torrent's name is `""`. -/
-theorem C15_created_counterexample_D15d : ¬ C15_created_full := by
-  intro h
-  exact absurd (h witO witNoPat witTd witFSd ["r", "P", "T"] ⟨false, ["sub", ".."]⟩ witTd.files
-    (by decide) (by decide) (List.Perm.refl _)) (by decide)
-
-theorem C15_independent_counterexample_D15d : ¬ C15_independent_full := by
-  intro h
-  exact absurd (h witO witNoPat witTd witFSd witFSd ["r", "P", "T"] ["r", "P"]
-    ⟨false, ["sub", ".."]⟩ ⟨false, ["T"]⟩ witTd.files witTd.files
-    (by decide) (by decide) (by decide) (List.Perm.refl _) (List.Perm.refl _)) (by decide)
-
-/-- what the model answers on the witnesses -/
-example :
-  pathSetter witO witExA (envOf witFSb ["r", "P", "T", "sub"] ⟨false, [".."]⟩ witTb.files)
-    = .ok (.multi "T" [(["a.txt"], 3), (["sub", "b.txt"], 1)]) ∧
-  Spec.created witO witExA witTb = .multi "T" [(["sub", "b.txt"], 1)] ∧
-  pathSetter witO witExA (envOf witFSc ["r", "P"] ⟨false, ["T"]⟩ witTc.files)
-    = .ok (.multi "T" [(["a.txt"], 3)]) ∧
-  Spec.created witO witExA witTc = .empty ∧
-  pathSetter witO witExA (envOf witFScE ["r", "P"] ⟨false, ["T"]⟩ witTcE.files)
-    = .ok (.multi "T" [(["a.txt"], 3)]) ∧
-  Spec.created witO witExA witTcE = .empty ∧
-  pathSetter witO witNoPat (envOf witFSc' ["r", "P"] ⟨false, ["T"]⟩ witTc'.files)
-    = .ok (.multi "T" [([".hid", "a"], 3), ([".hid", "b"], 1)]) ∧
-  Spec.created witO witNoPat witTc' = .empty ∧
-  pathSetter witO witNoPat (envOf witFSd ["r", "P", "T"] ⟨false, ["sub", ".."]⟩ witTd.files)
-    = .ok (.multi "" [(["a"], 3), (["sub", "b"], 1)]) := by decide
-
-/-! ### empty files are never stored (every spelling, cwd, pattern set) -/
-
-/-- `_set_files` drops a file of size 0 when `os.path.exists` of the path it was listed with says
-    yes.  For `Torrent.path = …` those are the paths `list_files` has just found, so — with no
-    condition on the spelling (`..`, `sub/..` included), the cwd, the patterns or the shape of the
-    tree — no stored entry has length 0. -/
-theorem C15_no_empty_file (o : Oracles) (st : Settings) (env : Env)
-    (hex : ∀ f ∈ env.order, f.size = 0 →
-      env.pathExists (listedPath (pathlibNorm env.spelling) f) = true) :
-    ∀ e ∈ filesOf (pathSetter o st env), e.2 ≠ 0 :=
-  pathSetter_no_empty o st env hex
+/-- the spelled path, made absolute as `_set_files` does it (`normpath(join(cwd, p))`), is the
+    place the spelling leads to — for every spelling and every cwd -/
+theorem C15_nameOK_of_addresses (fs : FS) (cwd : Comps) (sp : PPath) (t : Tree)
+    (ord : List FileEnt) (hadr : Addresses fs cwd sp t = true) :
+    Spec.nameOK (envOf fs cwd sp ord) t = true := by
+  unfold Addresses at hadr
+  simp only [Bool.and_eq_true] at hadr
+  have hloc := hadr.1.1.1
+  unfold Spec.nameOK envOf abspath
+  have hab : (pathlibNorm sp).abs = sp.abs := rfl
+  simp only [hab]
+  cases ha : sp.abs with
+  | true =>
+    simp only [ha, if_true] at hloc ⊢
+    rw [normpath_pathlibNorm]; exact hloc
+  | false =>
+    simp only [ha, Bool.false_eq_true, if_false] at hloc ⊢
+    rw [normpath_append_pathlibNorm]; exact hloc
 
 /-- what the walk listed exists, wherever the tree is and however it is addressed -/
 theorem C15_listedExist_of_addresses (fs : FS) (cwd : Comps) (sp : PPath) (t : Tree)
@@ -262,10 +140,53 @@ theorem C15_listedExist_of_addresses (fs : FS) (cwd : Comps) (sp : PPath) (t : T
   unfold Spec.listedExist
   rw [List.all_eq_true]
   intro f hf
-  exact fsExists_listed fs cwd sp f (List.all_eq_true.mpr (hct.1.1.2 f hf)) (hadr.1.2 f hf)
+  exact fsExists_listed fs cwd sp f (List.all_eq_true.mpr (hct.1.1.2 f hf)) (hadr.1.1.2 f hf)
 
-/-- the same over the environments of the full statement: the tree anywhere in a file system,
-    any cwd, any spelling that leads to it -/
+/-- a tree that is addressed satisfies the hypothesis of the refinement -/
+theorem C15_hypB_of_addresses (fs : FS) (cwd : Comps) (sp : PPath) (t : Tree)
+    (ord : List FileEnt) (hct : Spec.cleanTree t = true) (hadr : Addresses fs cwd sp t = true)
+    (hord : ord.Perm t.files) : Spec.hypB (envOf fs cwd sp ord) t = true := by
+  have h1 := C15_nameOK_of_addresses fs cwd sp t ord hadr
+  have h2 := C15_listedExist_of_addresses fs cwd sp t ord hct hadr
+  have h3 : Spec.fileSpellOK (envOf fs cwd sp ord) t = true := by
+    unfold Addresses at hadr
+    simp only [Bool.and_eq_true] at hadr
+    exact hadr.2
+  have h4 : (envOf fs cwd sp ord).order.isPerm t.files = true := List.isPerm_iff.mpr hord
+  unfold Spec.hypB
+  simp only [hct, h1, h2, h3, h4, Bool.and_self]
+
+/-- **C15.**  Wherever the tree is (`fs`), whatever the working directory is and however the
+    path is spelled — relative, absolute, with `.` or `..` (`..`, `sub/..`, `../..`, `x/../T`), a
+    trailing slash — and in whatever order the file system lists the entries: the created torrent
+    is the specified one, a function of the tree and the settings only; nothing is raised. -/
+theorem C15_created (o : Oracles) (st : Settings) (t : Tree) (fs : FS) (cwd : Comps) (sp : PPath)
+    (ord : List FileEnt)
+    (hct : Spec.cleanTree t = true) (hadr : Addresses fs cwd sp t = true) (hord : ord.Perm t.files) :
+    pathSetter o st (envOf fs cwd sp ord) = .ok (Spec.created o st t) :=
+  C15_created_env o st _ t (C15_hypB_of_addresses fs cwd sp t ord hct hadr hord)
+
+/-- … in particular two ways of addressing the same tree — two file systems, locations, working
+    directories, spellings, listing orders — give the same torrent. -/
+theorem C15_independent (o : Oracles) (st : Settings) (t : Tree) (fs₁ fs₂ : FS) (cwd₁ cwd₂ : Comps)
+    (sp₁ sp₂ : PPath) (ord₁ ord₂ : List FileEnt)
+    (hct : Spec.cleanTree t = true) (h₁ : Addresses fs₁ cwd₁ sp₁ t = true)
+    (h₂ : Addresses fs₂ cwd₂ sp₂ t = true) (ho₁ : ord₁.Perm t.files) (ho₂ : ord₂.Perm t.files) :
+    pathSetter o st (envOf fs₁ cwd₁ sp₁ ord₁) = pathSetter o st (envOf fs₂ cwd₂ sp₂ ord₂) := by
+  rw [C15_created o st t fs₁ cwd₁ sp₁ ord₁ hct h₁ ho₁, C15_created o st t fs₂ cwd₂ sp₂ ord₂ hct h₂ ho₂]
+
+/-! ### empty files are never stored (every spelling, cwd, pattern set) -/
+
+/-- `_set_files` drops a file of size 0 when `os.path.exists` of the path it was listed with says
+    yes.  For `Torrent.path = …` those are the paths `list_files` has just found, so — with no
+    condition on the spelling, the cwd, the patterns or the shape of the tree — no stored entry
+    has length 0. -/
+theorem C15_no_empty_file (o : Oracles) (st : Settings) (env : Env)
+    (hex : ∀ f ∈ env.order, f.size = 0 →
+      env.pathExists (listedPath (pathlibNorm env.spelling) f) = true) :
+    ∀ e ∈ filesOf (pathSetter o st env), e.2 ≠ 0 :=
+  pathSetter_no_empty o st env hex
+
 theorem C15_no_empty_file_addressed (o : Oracles) (st : Settings) (t : Tree) (fs : FS)
     (cwd : Comps) (sp : PPath) (ord : List FileEnt) (hct : Spec.cleanTree t = true)
     (hadr : Addresses fs cwd sp t = true) (hord : ord.Perm t.files) :
@@ -277,52 +198,102 @@ theorem C15_no_empty_file_addressed (o : Oracles) (st : Settings) (t : Tree) (fs
   rw [List.all_eq_true] at h
   exact h f (hord.mem_iff.mp hf)
 
-/-- non-vacuity and reach: the D15d spelling `sub/..` from inside a tree with an empty file —
-    the name is lost (D15d, open) but the empty file is not stored -/
+/-! ### regression: the witnesses of the repaired defects D15a–D15d
+
+  Each of these refuted `C15_created_full` / `C15_independent_full` while the defect was in /repo
+  (theorems `C15_created_counterexample_D15a/b/c/c_hidden/c_beside_empty/d`,
+  `C15_independent_counterexample(_D15d)`).  Now the model answers the specified torrent on every
+  one of them, and each environment satisfies `Addresses`. -/
+
+/-- witness oracles: no case folding, glob and regex are literal equality -/
+def witO : Oracles := ⟨fun s => s, fun text pat => text == pat, fun pat text => pat == text⟩
+def witNoPat : Settings := ⟨[], [], [], []⟩
+def witExA : Settings := ⟨["T/a.txt"], [], [], []⟩
+
+def witTa : Tree := ⟨"T", [⟨["a"], 3⟩, ⟨["e"], 0⟩]⟩
+def witFSa : FS := [(["r", "P", "T", "a"], some 3), (["r", "P", "T", "e"], some 0)]
+/-- an unrelated cwd `/r/U` that holds a same-named *empty* `T/a` and a non-empty `T/e` -/
+def witFSa' : FS := witFSa ++ [(["r", "U", "T", "a"], some 0), (["r", "U", "T", "e"], some 5)]
+
+/-- D15a (d89a92e): the empty-file test probed `name/rel` relative to the cwd -/
 example :
+    Spec.created witO witNoPat witTa = .multi "T" [(["a"], 3)] ∧
+    -- `cd T; path = "."` (was: `[a, e(0)]`)
+    pathSetter witO witNoPat (envOf witFSa ["r", "P", "T"] ⟨false, ["."]⟩ witTa.files)
+      = .ok (Spec.created witO witNoPat witTa) ∧
+    pathSetter witO witNoPat (envOf witFSa ["r", "P"] ⟨false, ["T"]⟩ witTa.files)
+      = .ok (Spec.created witO witNoPat witTa) ∧
+    -- `cd /r/U; path = "/r/P/T"` with the decoys below the cwd (was: no file at all)
+    pathSetter witO witNoPat (envOf witFSa' ["r", "U"] ⟨true, ["r", "P", "T"]⟩ witTa.files)
+      = .ok (Spec.created witO witNoPat witTa) ∧
+    pathSetter witO witNoPat (envOf witFSa' ["r", "U"] ⟨false, ["..", "P", "T"]⟩ witTa.files.reverse)
+      = .ok (Spec.created witO witNoPat witTa) ∧
     Addresses witFSa ["r", "P", "T"] ⟨false, ["."]⟩ witTa = true ∧
-    pathSetter witO witNoPat
-      (envOf (witFSa ++ [(["r", "P", "T", "sub", "b"], some 1)]) ["r", "P", "T"]
-        ⟨false, ["sub", ".."]⟩ [⟨["a"], 3⟩, ⟨["e"], 0⟩, ⟨["sub", "b"], 1⟩])
-      = .ok (.multi "" [(["a"], 3), (["sub", "b"], 1)]) := by decide
+    Addresses witFSa' ["r", "U"] ⟨true, ["r", "P", "T"]⟩ witTa = true := by decide
 
-/-! ### sufficient conditions for `nameOK` in terms of the place the spelling leads to -/
+def witTb : Tree := ⟨"T", [⟨["a.txt"], 3⟩, ⟨["sub", "b.txt"], 1⟩]⟩
+def witFSb : FS := [(["r", "P", "T", "a.txt"], some 3), (["r", "P", "T", "sub", "b.txt"], some 1)]
 
-/-- `_set_files` computes the absolute path as `cwd / normpath(p)` — not `normpath(cwd / p)`.
-    The two end in the same name when the working directory has real component names and
-    `normpath(p)` ends in a real name (`T`, `../P/T`, `x/../T`, …; not `..`, `sub/..`). -/
-theorem C15_nameOK_of_denotes (cwd bc : Comps) (c : String) (hcwd : cwd.all isClean = true)
-    (hlast : (normpath false bc).getLast? = some c) (hc : isClean c = true) :
-    (cwd ++ normpath false bc).getLast? = (normpath true (cwd ++ bc)).getLast? :=
-  getLast?_abspath_eq_normpath cwd bc c hcwd hlast hc
+/-- D15b (42ec9ba): `cd T/sub; path = ".."` — the exclude pattern `T/a.txt` was matched against
+    `../a.txt` and `a.txt` stayed; `..`, `../`, `./..` and `cd P; path = "T"` now agree -/
+example :
+    Spec.created witO witExA witTb = .multi "T" [(["sub", "b.txt"], 1)] ∧
+    pathSetter witO witExA (envOf witFSb ["r", "P", "T", "sub"] ⟨false, [".."]⟩ witTb.files)
+      = .ok (Spec.created witO witExA witTb) ∧
+    pathSetter witO witExA (envOf witFSb ["r", "P", "T", "sub"] ⟨false, [".", "..", ""]⟩ witTb.files)
+      = .ok (Spec.created witO witExA witTb) ∧
+    pathSetter witO witExA (envOf witFSb ["r", "P"] ⟨false, ["T"]⟩ witTb.files)
+      = .ok (Spec.created witO witExA witTb) ∧
+    Addresses witFSb ["r", "P", "T", "sub"] ⟨false, [".."]⟩ witTb = true := by decide
 
-/-- hence `nameOK` holds whenever the spelling leads to the tree (`Addresses`) and is absolute,
-    or relative from a clean working directory with `normpath` ending in a real name -/
-theorem C15_nameOK_of_addresses (fs : FS) (cwd : Comps) (sp : PPath) (t : Tree)
-    (ord : List FileEnt)
-    (hsp : sp.abs = true ∨ (cwd.all isClean = true ∧
-      (normpath false sp.comps).getLast?.any isClean = true))
-    (hadr : Addresses fs cwd sp t = true) :
-    Spec.nameOK (envOf fs cwd sp ord) t = true := by
-  unfold Addresses at hadr
-  simp only [Bool.and_eq_true] at hadr
-  have hloc := hadr.1.1
-  unfold Spec.nameOK envOf abspath
-  simp only [normpath_pathlibNorm]
-  have hab : (pathlibNorm sp).abs = sp.abs := rfl
-  rw [hab]
-  rcases hsp with h | ⟨h1, h2⟩
-  · simpa [h] using hloc
-  · cases ha : sp.abs with
-    | true => simpa [ha] using hloc
-    | false =>
-      simp only [Option.any_eq_true] at h2
-      obtain ⟨c, hc1, hc2⟩ := h2
-      simp only [ha, Bool.false_eq_true, if_false] at hloc ⊢
-      rw [getLast?_abspath_eq_normpath cwd sp.comps c h1 hc1 hc2]
-      exact hloc
+def witTc : Tree := ⟨"T", [⟨["a.txt"], 3⟩]⟩
+def witFSc : FS := [(["r", "P", "T", "a.txt"], some 3)]
+def witTc' : Tree := ⟨"T", [⟨[".hid", "a"], 3⟩, ⟨[".hid", "b"], 1⟩]⟩
+def witFSc' : FS := [(["r", "P", "T", ".hid", "a"], some 3), (["r", "P", "T", ".hid", "b"], some 1)]
+def witTcE : Tree := ⟨"T", [⟨["a.txt"], 3⟩, ⟨["e"], 0⟩]⟩
+def witFScE : FS := [(["r", "P", "T", "a.txt"], some 3), (["r", "P", "T", "e"], some 0)]
 
-/-! ### non-vacuity of `hypB` -/
+/-- D15c (1742c6d): a directory with one file (pattern saw `T/T/a.txt`), all files below a hidden
+    directory (hidden test started below it), one non-empty file beside an empty one (the reach
+    d89a92e had added) -/
+example :
+    Spec.created witO witExA witTc = .empty ∧
+    pathSetter witO witExA (envOf witFSc ["r", "P"] ⟨false, ["T"]⟩ witTc.files) = .ok .empty ∧
+    Spec.created witO witNoPat witTc' = .empty ∧
+    pathSetter witO witNoPat (envOf witFSc' ["r", "P"] ⟨false, ["T"]⟩ witTc'.files) = .ok .empty ∧
+    Spec.created witO witExA witTcE = .empty ∧
+    pathSetter witO witExA (envOf witFScE ["r", "P"] ⟨false, ["T"]⟩ witTcE.files) = .ok .empty ∧
+    -- without the pattern the single file of the directory is a multi-file torrent
+    pathSetter witO witNoPat (envOf witFSc ["r", "P"] ⟨false, ["T"]⟩ witTc.files)
+      = .ok (.multi "T" [(["a.txt"], 3)]) := by decide
+
+def witTd : Tree := ⟨"T", [⟨["a"], 3⟩, ⟨["sub", "b"], 1⟩]⟩
+def witFSd : FS := [(["r", "P", "T", "a"], some 3), (["r", "P", "T", "sub", "b"], some 1)]
+
+/-- D15d (42ec9ba): `cd T; path = "sub/.."` gave the name `""`, `cd T/sub; path = "../sub/.."`
+    and `cd T/sub/x; path = "../.."` the name `".."` -/
+example :
+    Spec.created witO witNoPat witTd = .multi "T" [(["a"], 3), (["sub", "b"], 1)] ∧
+    pathSetter witO witNoPat (envOf witFSd ["r", "P", "T"] ⟨false, ["sub", ".."]⟩ witTd.files)
+      = .ok (Spec.created witO witNoPat witTd) ∧
+    pathSetter witO witNoPat (envOf witFSd ["r", "P", "T", "sub"] ⟨false, ["..", "sub", ".."]⟩ witTd.files)
+      = .ok (Spec.created witO witNoPat witTd) ∧
+    pathSetter witO witNoPat (envOf witFSd ["r", "P", "T", "sub", "x"] ⟨false, ["..", ".."]⟩ witTd.files)
+      = .ok (Spec.created witO witNoPat witTd) ∧
+    -- patterns under such a spelling see `T/…` as well
+    pathSetter witO ⟨["T/a"], [], [], []⟩
+        (envOf witFSd ["r", "P", "T", "sub", "x"] ⟨false, ["..", ".."]⟩ witTd.files)
+      = .ok (.multi "T" [(["sub", "b"], 1)]) ∧
+    Addresses witFSd ["r", "P", "T"] ⟨false, ["sub", ".."]⟩ witTd = true := by decide
+
+/-- the same through the theorem -/
+example : pathSetter witO witExA (envOf witFSb ["r", "P", "T", "sub"] ⟨false, [".."]⟩ witTb.files)
+    = pathSetter witO witExA (envOf witFSb ["r", "Q"] ⟨true, ["r", "P", "x", "..", "T", ""]⟩
+        witTb.files.reverse) :=
+  C15_independent witO witExA witTb witFSb witFSb _ _ _ _ _ _ (by decide) (by decide) (by decide)
+    (List.Perm.refl _) (List.reverse_perm _)
+
+/-! ### non-vacuity of `hypB` / `Addresses` -/
 
 /-- hidden entries at both levels, an excluded file, an excluded-but-included file -/
 def witTm : Tree := ⟨"T", [⟨["a.txt"], 3⟩, ⟨["sub", "b.txt"], 1⟩, ⟨["sub", "c.log"], 2⟩,
@@ -339,58 +310,77 @@ def witE2 : Env := envOf witFSm ["r", "P", "T"] ⟨false, ["", "."]⟩ witTm.fil
 def witE3 : Env := envOf witFSm ["r", "P"] ⟨true, ["r", "P", "x", "..", "T"]⟩ witTm.files
 /-- `cd /r/Q; path = "/r/P/T/"`, a cwd that does not exist in `witFSm`, reversed walk order -/
 def witE4 : Env := envOf witFSm ["r", "Q"] ⟨true, ["r", "P", "T", ""]⟩ witTm.files.reverse
+/-- `cd /r/P/T/sub; path = ".."` -/
+def witE5 : Env := envOf witFSm ["r", "P", "T", "sub"] ⟨false, [".."]⟩ witTm.files
 
-example : Spec.hypB witStm witE1 witTm = true := by decide
-example : Spec.hypB witStm witE2 witTm = true := by decide
-example : Spec.hypB witStm witE3 witTm = true := by decide
-example : Spec.hypB witStm witE4 witTm = true := by decide
+example : Spec.hypB witE1 witTm = true := by decide
+example : Spec.hypB witE2 witTm = true := by decide
+example : Spec.hypB witE3 witTm = true := by decide
+example : Spec.hypB witE4 witTm = true := by decide
+example : Spec.hypB witE5 witTm = true := by decide
+example : Addresses witFSm ["r", "P", "T", "sub"] ⟨false, [".."]⟩ witTm = true := by decide
 example : Spec.created witO witStm witTm = .multi "T" [(["a.txt"], 3), (["sub", "c.log"], 2)] := by
   decide
-example : pathSetter witO witStm witE1 = pathSetter witO witStm witE2 :=
-  C15_independent_partial witO witStm witTm witE1 witE2 (by decide) (by decide)
+example : pathSetter witO witStm witE1 = pathSetter witO witStm witE5 :=
+  C15_independent_env witO witStm witTm witE1 witE5 (by decide) (by decide)
 example : pathSetter witO witStm witE3 = .ok (.multi "T" [(["a.txt"], 3), (["sub", "c.log"], 2)]) :=
-  C15_created_partial witO witStm witE3 witTm (by decide)
+  C15_created_env witO witStm witE3 witTm (by decide)
 
 /-- a tree with an empty and a hidden file: from its parent directory (two spellings/orders),
-    from inside, from its hidden-file-free child-less self by absolute path elsewhere -/
+    from inside, by absolute path from elsewhere -/
 def witTn : Tree := ⟨"T", [⟨["a"], 3⟩, ⟨["e"], 0⟩, ⟨[".h"], 2⟩]⟩
 def witFSn : FS := [(["r", "P", "T", "a"], some 3), (["r", "P", "T", "e"], some 0),
   (["r", "P", "T", ".h"], some 2)]
-example : Spec.hypB witNoPat (envOf witFSn ["r", "P"] ⟨false, ["T"]⟩ witTn.files) witTn = true := by
+example : Spec.hypB (envOf witFSn ["r", "P"] ⟨false, ["T"]⟩ witTn.files) witTn = true := by
   decide
-example : Spec.hypB witNoPat (envOf witFSn ["r", "P"] ⟨false, [".", "T", ""]⟩ witTn.files.reverse)
+example : Spec.hypB (envOf witFSn ["r", "P"] ⟨false, [".", "T", ""]⟩ witTn.files.reverse)
     witTn = true := by decide
-example : Spec.hypB witNoPat (envOf witFSn ["r", "P", "T"] ⟨false, [".", ""]⟩ witTn.files) witTn = true := by
+example : Spec.hypB (envOf witFSn ["r", "P", "T"] ⟨false, [".", ""]⟩ witTn.files) witTn = true := by
   decide
-example : Spec.hypB witNoPat (envOf witFSn ["x"] ⟨true, ["r", "P", "T"]⟩ witTn.files) witTn = true := by
+example : Spec.hypB (envOf witFSn ["x"] ⟨true, ["r", "P", "T"]⟩ witTn.files) witTn = true := by
   decide
 example : Spec.created witO witNoPat witTn = .multi "T" [(["a"], 3)] := by decide
 
 /-- all files empty, the only file empty (directory and single-file tree): nothing is created -/
 example :
-    Spec.hypB witNoPat (envOf [(["r", "P", "T", "e"], some 0), (["r", "P", "T", "s", "f"], some 0)]
+    Spec.hypB (envOf [(["r", "P", "T", "e"], some 0), (["r", "P", "T", "s", "f"], some 0)]
       ["r", "P", "T", "s"] ⟨true, ["r", "P", "T"]⟩ [⟨["e"], 0⟩, ⟨["s", "f"], 0⟩])
       ⟨"T", [⟨["e"], 0⟩, ⟨["s", "f"], 0⟩]⟩ = true ∧
     Spec.created witO witNoPat ⟨"T", [⟨["e"], 0⟩, ⟨["s", "f"], 0⟩]⟩ = .empty ∧
-    Spec.hypB witNoPat (envOf [(["r", "P", "e.bin"], some 0)] ["r"] ⟨false, ["P", "e.bin"]⟩ [⟨[], 0⟩])
+    Spec.hypB (envOf [(["r", "P", "e.bin"], some 0)] ["r"] ⟨false, ["P", "e.bin"]⟩ [⟨[], 0⟩])
       ⟨"e.bin", [⟨[], 0⟩]⟩ = true ∧
     Spec.created witO witNoPat ⟨"e.bin", [⟨[], 0⟩]⟩ = .empty := by decide
 
-/-- an empty file that an include pattern matches is still left out (cwd inside the tree) -/
+/-- an empty file that an include pattern matches is still left out (cwd inside the tree; since
+    1742c6d also when it is the only other file) -/
 example :
-    let t : Tree := ⟨"T", [⟨["a"], 3⟩, ⟨["b"], 2⟩, ⟨["e"], 0⟩]⟩
-    let fs : FS := [(["r", "P", "T", "a"], some 3), (["r", "P", "T", "b"], some 2),
-      (["r", "P", "T", "e"], some 0)]
-    Spec.created witO ⟨["T/b"], [], ["T/e"], []⟩ t = .multi "T" [(["a"], 3)] ∧
-    Spec.hypB ⟨["T/b"], [], ["T/e"], []⟩ (envOf fs ["r", "P", "T"] ⟨false, ["."]⟩ t.files) t
-      = true := by decide
+    Spec.created witO ⟨[], [], ["T/e"], []⟩ witTa = .multi "T" [(["a"], 3)] ∧
+    pathSetter witO ⟨[], [], ["T/e"], []⟩ (envOf witFSa ["r", "P", "T"] ⟨false, ["."]⟩ witTa.files)
+      = .ok (.multi "T" [(["a"], 3)]) := by decide
+
+/-- a tree that is a single file: by name, through `sub/..`, from elsewhere; a hidden file as the
+    tree is kept (the top level may be hidden) and patterns see its name -/
+example :
+    let fs : FS := [(["r", "P", "f.bin"], some 7), (["r", "P", "sub", "x"], some 1),
+      (["r", "P", ".h"], some 2)]
+    Addresses fs ["r", "P"] ⟨false, ["sub", "..", "f.bin"]⟩ ⟨"f.bin", [⟨[], 7⟩]⟩ = true ∧
+    pathSetter witO witNoPat (envOf fs ["r", "P"] ⟨false, ["sub", "..", "f.bin"]⟩ [⟨[], 7⟩])
+      = .ok (.single "f.bin" 7) ∧
+    pathSetter witO witNoPat (envOf fs ["r", "P", "sub"] ⟨false, ["..", ".h"]⟩ [⟨[], 2⟩])
+      = .ok (.single ".h" 2) ∧
+    pathSetter witO ⟨["f.bin"], [], [], []⟩ (envOf fs ["r", "Q"] ⟨true, ["r", "P", "f.bin"]⟩ [⟨[], 7⟩])
+      = .ok .empty ∧
+    -- not addressed: no file system resolves a path through a file
+    Addresses fs ["r", "P"] ⟨false, ["f.bin", "x", ".."]⟩ ⟨"f.bin", [⟨[], 7⟩]⟩ = false := by decide
 
 /-! ### `Torrent.files = …` (outside C15's statement): what is left of the cwd dependence
 
   The `File` objects of the `files` setter carry torrent-relative paths, so `os.path.exists(f)` is
   a probe below the cwd: `File('T/e', 0)` is dropped where something called `T/e` exists and kept
-  (with length 0) elsewhere.  The sizes themselves are no longer re-read from the file system
-  (before d89a92e a non-empty `File('T/a', 3)` was dropped where an empty `T/a` existed). -/
+  (with length 0) elsewhere.  The sizes themselves are not re-read from the file system.
+  Since 1742c6d the hidden test and the patterns are relative to the common directory of the given
+  files (which becomes the torrent's name): a hidden `T/.h/x` is dropped also when it is the only
+  file that is left. -/
 example :
     filesSetter witO witNoPat ["r", "P"] (fsExists witFSa' ["r", "P"])
       [(["T", "a"], 3), (["T", "e"], 0), (["T", "zz"], 0)]
@@ -401,11 +391,8 @@ example :
     -- the decoy `U/T/a` is empty, the given size 3 is what counts
     filesSetter witO witNoPat ["r", "U"] (fsExists witFSa' ["r", "U"])
       [(["T", "a"], 3), (["T", "e"], 0), (["T", "zz"], 0)]
-      = .ok (.multi "T" [(["a"], 3), (["zz"], 0)]) := by decide
-
-/-- a tree that is a single file -/
-example : Spec.hypB witNoPat (envOf [(["r", "P", "f.bin"], some 7)] ["r", "P"] ⟨false, ["f.bin"]⟩
-    [⟨[], 7⟩]) ⟨"f.bin", [⟨[], 7⟩]⟩ = true := by decide
-example : Spec.created witO witNoPat ⟨"f.bin", [⟨[], 7⟩]⟩ = .single "f.bin" 7 := by decide
+      = .ok (.multi "T" [(["a"], 3), (["zz"], 0)]) ∧
+    filesSetter witO witNoPat ["r", "P"] (fsExists witFSa' ["r", "P"])
+      [(["T", ".h", "x"], 4), (["T", "e"], 0)] = .ok .empty := by decide
 
 end Torf.C15
